@@ -27,6 +27,11 @@
     `applyMatcherSplit_error`);
   * the candset has fewer than 2⁴⁰ rows (precision limit of `split_table`'s binary64 chunk boundaries; discharges the
     "chunks form a partition" hypothesis via `chunksFor_flatten`, for EVERY n_jobs and cpu count).
+  * when a tokenizer is given, both match columns hold only strings and missing values (`hstr`, `StrColumn` of
+    SSJ/Props/Common.lean): a present value of another type makes `tokenizer.tokenize` raise TypeError — in
+    `generate_tokens` for ANY row of the tables when the token cache is built, else at the first candidate row that
+    references it (`C15.apply_matcher_nonstring_raises`).  Without a tokenizer the raw values go to `sim_function`
+    and nothing is assumed about them.
   * the candset's first column is its `_id` column (cell 0 of a candidate row), as produced by every join / filter
     of the package.
 
@@ -121,13 +126,14 @@ theorem keeps_exactly (a : MatcherArgs) (t : Option TokObj) (toks : TokFn) (sim 
     (c l r : Frame) (hv : validateMatcher a t = .ok (c, l, r))
     (hl : ∀ cr ∈ c.rows, cr.cell (c.colIdx a.candLKey) ∈ l.col a.lKey)
     (hr : ∀ cr ∈ c.rows, cr.cell (c.colIdx a.candRKey) ∈ r.col a.rKey)
-    (hlen : c.rows.length < 2 ^ 40) :
+    (hlen : c.rows.length < 2 ^ 40)
+    (hstr : t.isSome → StrColumn l a.lAttr ∧ StrColumn r a.rAttr) :
     ∃ fr, applyMatcher a t toks sim cpu = .ok fr ∧
       fr.rows = c.rows.filterMap (rowSpec a (tokOf t toks) sim c l r) ∧
       fr.columns = (if c.rows.isEmpty then c.columns else
         "_id" :: (getOutputHeader a.lKey a.rKey (removeRedundantAttrs a.lOut a.lKey) (removeRedundantAttrs a.rOut a.rKey)
                     a.lPre a.rPre ++ (if a.outSimScore then ["_sim_score"] else []))) := by
-  obtain ⟨fr, hfr, hcols, hrows⟩ := applyMatcher_rows' a t toks sim cpu c l r hv hl hr hlen
+  obtain ⟨fr, hfr, hcols, hrows⟩ := applyMatcher_rows' a t toks sim cpu c l r hv hl hr hlen hstr
   have hV := (validateMatcher_ok_iff a t c l r).1 hv
   refine ⟨fr, hfr, ?_, hcols⟩
   rw [hrows]
@@ -187,10 +193,11 @@ theorem order_and_ids_preserved (a : MatcherArgs) (t : Option TokObj) (toks : To
     (cpu : Int) (c l r : Frame) (hv : validateMatcher a t = .ok (c, l, r))
     (hl : ∀ cr ∈ c.rows, cr.cell (c.colIdx a.candLKey) ∈ l.col a.lKey)
     (hr : ∀ cr ∈ c.rows, cr.cell (c.colIdx a.candRKey) ∈ r.col a.rKey)
-    (hlen : c.rows.length < 2 ^ 40) :
+    (hlen : c.rows.length < 2 ^ 40)
+    (hstr : t.isSome → StrColumn l a.lAttr ∧ StrColumn r a.rAttr) :
     ∃ fr, applyMatcher a t toks sim cpu = .ok fr ∧
       (fr.rows.map (·.cell 0)).Sublist (c.rows.map (·.cell 0)) := by
-  obtain ⟨fr, hfr, _, hrows⟩ := applyMatcher_rows' a t toks sim cpu c l r hv hl hr hlen
+  obtain ⟨fr, hfr, _, hrows⟩ := applyMatcher_rows' a t toks sim cpu c l r hv hl hr hlen hstr
   refine ⟨fr, hfr, ?_⟩
   rw [hrows]
   exact filterMap_cell_zero_sublist _ _ (fun cr row h => matcherTableSpec_cell_zero a t toks sim c l r cr row h)
@@ -206,31 +213,35 @@ theorem njobs_irrelevant (a : MatcherArgs) (t : Option TokObj) (toks : TokFn) (s
     (cpu cpu' nJobs' : Int) (c l r : Frame) (hv : validateMatcher a t = .ok (c, l, r))
     (hl : ∀ cr ∈ c.rows, cr.cell (c.colIdx a.candLKey) ∈ l.col a.lKey)
     (hr : ∀ cr ∈ c.rows, cr.cell (c.colIdx a.candRKey) ∈ r.col a.rKey)
-    (hlen : c.rows.length < 2 ^ 40) :
+    (hlen : c.rows.length < 2 ^ 40)
+    (hstr : t.isSome → StrColumn l a.lAttr ∧ StrColumn r a.rAttr) :
     ∃ fr fr', applyMatcher a t toks sim cpu = .ok fr ∧
       applyMatcher { a with nJobs := nJobs' } t toks sim cpu' = .ok fr' ∧
       fr'.rows = fr.rows ∧ fr'.columns = fr.columns := by
-  obtain ⟨fr, hfr, hrows, hcols⟩ := keeps_exactly a t toks sim cpu c l r hv hl hr hlen
-  obtain ⟨fr', hfr', hrows', hcols'⟩ := keeps_exactly { a with nJobs := nJobs' } t toks sim cpu' c l r hv hl hr hlen
+  obtain ⟨fr, hfr, hrows, hcols⟩ := keeps_exactly a t toks sim cpu c l r hv hl hr hlen hstr
+  obtain ⟨fr', hfr', hrows', hcols'⟩ := keeps_exactly { a with nJobs := nJobs' } t toks sim cpu' c l r hv hl hr hlen hstr
   exact ⟨fr, fr', hfr, hfr', hrows'.trans hrows.symm, hcols'.trans hcols.symm⟩
 
 /-- The token cache is irrelevant.  `apply_matcher` pre-tokenizes both tables iff
     `len(ltable) + len(rtable) < 2 · len(candset)`; `keeps_exactly` holds on both sides of that switch (its
     statement never mentions it).  At the level of the per-chunk worker `_apply_matcher_split`: with unique keys,
     running with the cache the entry point builds (`useCache = true`) or without it gives the same result — rows
-    or KeyError alike. -/
+    or KeyError alike — provided, when a tokenizer is given, the two columns hold only strings and missing values
+    (`StrCells`; a non-string makes the no-cache worker raise TypeError at the row referencing it, whereas with the
+    cache `generate_tokens` has raised before the worker starts). -/
 theorem cache_irrelevant (a : MatcherArgs) (candLIdx candRIdx : Nat) (lRows rRows : List Row)
     (lKeyIdx lAttrIdx rKeyIdx rAttrIdx : Nat) (o : OutCfg) (tok : Option (String → List Tok))
     (sim : SimArg → SimArg → PyV) (useCache : Bool) (chunk : List Row)
-    (hlk : (lRows.map (·.cell lKeyIdx)).Nodup) (hrk : (rRows.map (·.cell rKeyIdx)).Nodup) :
+    (hlk : (lRows.map (·.cell lKeyIdx)).Nodup) (hrk : (rRows.map (·.cell rKeyIdx)).Nodup)
+    (hstr : tok.isSome → StrCells lRows lAttrIdx ∧ StrCells rRows rAttrIdx) :
     applyMatcherSplit a candLIdx candRIdx lRows rRows lKeyIdx lAttrIdx rKeyIdx rAttrIdx o tok sim
-        (match tok, useCache with
+        (match (generalizing := false) tok, useCache with
          | some tk, true => some (generateTokens lRows lKeyIdx lAttrIdx tk, generateTokens rRows rKeyIdx rAttrIdx tk)
          | _, _ => none)
         chunk
       = applyMatcherSplit a candLIdx candRIdx lRows rRows lKeyIdx lAttrIdx rKeyIdx rAttrIdx o tok sim none chunk :=
   applyMatcherSplit_cache_irrel a candLIdx candRIdx lRows rRows lKeyIdx lAttrIdx rKeyIdx rAttrIdx o tok sim
-    useCache chunk hlk hrk
+    useCache chunk hlk hrk hstr
 
 /-- … and at table level, explicitly for both positions of the switch: the rows are the `rowSpec` rows whether the
     cache is built (`small = true`: `len(l) + len(r) < 2·len(c)`) or not. -/
@@ -240,10 +251,11 @@ theorem cache_irrelevant_tables (a : MatcherArgs) (t : Option TokObj) (toks : To
     (hv : validateMatcher a t = .ok (c, l, r))
     (hl : ∀ cr ∈ c.rows, cr.cell (c.colIdx a.candLKey) ∈ l.col a.lKey)
     (hr : ∀ cr ∈ c.rows, cr.cell (c.colIdx a.candRKey) ∈ r.col a.rKey)
-    (hlen : c.rows.length < 2 ^ 40) :
+    (hlen : c.rows.length < 2 ^ 40)
+    (hstr : t.isSome → StrColumn l a.lAttr ∧ StrColumn r a.rAttr) :
     ∃ fr, applyMatcher a t toks sim cpu = .ok fr ∧
       fr.rows = c.rows.filterMap (rowSpec a (tokOf t toks) sim c l r) := by
-  obtain ⟨fr, hfr, hrows, _⟩ := keeps_exactly a t toks sim cpu c l r hv hl hr hlen
+  obtain ⟨fr, hfr, hrows, _⟩ := keeps_exactly a t toks sim cpu c l r hv hl hr hlen hstr
   exact ⟨fr, hfr, hrows⟩
 
 /-- All six operators: `keeps_exactly` is uniform in `a.compOp`; the comparison it uses is the entry of the
